@@ -11,10 +11,10 @@ SUITE=$(ctest --test-dir _build -j8 --timeout 900 2>&1 | grep 'tests passed' )
 echo "suite with change: $SUITE"
 bash _seed/run_demo.sh >/tmp/demo_with.log 2>&1; RC_WITH=$?
 echo "demo with change: rc=$RC_WITH $(grep -o 'PASS\|FAIL' /tmp/demo_with.log | tail -1)"
-git stash -q -- src applis
+git diff -- src applis > /tmp/confirm_seed.$$.diff; git apply -R /tmp/confirm_seed.$$.diff
 build
 bash _seed/run_demo.sh >/tmp/demo_without.log 2>&1; RC_WITHOUT=$?
 echo "demo without change: rc=$RC_WITHOUT $(grep -o 'PASS\|FAIL' /tmp/demo_without.log | tail -1)"
-git stash pop -q
+git apply /tmp/confirm_seed.$$.diff; rm -f /tmp/confirm_seed.$$.diff
 build
 echo "$SUITE" | grep -q '100% tests passed' && [ $RC_WITH -ne 0 ] && [ $RC_WITHOUT -eq 0 ] && echo CONFIRMED || echo NOT-CONFIRMED
